@@ -13,8 +13,9 @@ package ggql
 //@   assigns nothing
 
 //@ func newCoerceErr
-//@   abstract formats a message with fmt.Errorf
-//@   ensures res != nil && !is(res, *Error) && !is(res, Errors) && aserr(res) == nil
+//@   props C06 C03
+//@   check panic {C03}
+//@   ensures[plain-error] res != nil && !is(res, *Error) && !is(res, Errors) && aserr(res) == nil
 //@   assigns fresh
 
 //@ -- ------------------------------------------------------------------ pure accessors
@@ -731,8 +732,12 @@ package ggql
 //@ spec isMetaName(n string) bool = n == "__typename" || n == "__type" || n == "__schema"
 
 //@ func (*Root).GetType
-//@   abstract schema table lookup (root.init is idempotent after setup)
-//@   ensures res == nil || ptrval(res) != 0
+//@   props C03 C17
+//@   check panic {C03}
+//@   requires root != nil
+//@   results res
+//@   ensures[real] res == nil || ptrval(res) != 0
+//@   ensures[type-first]{C17} root.types != nil && root.types.dict != nil && root.types.dict[name] != nil ==> res == root.types.dict[name]
 //@   assigns nothing
 
 //@ spec argDeclared(t Type, fname string, aname string) bool = fdOf(t, fname) != nil && fdOf(t, fname).args.dict[aname] != nil
